@@ -133,7 +133,8 @@ def _ntt_job(args):
                 del c.m.events[:]
                 f = sorted(c.m.findings.items(), key=str)[:2]
                 mx = max((v.hi for _, (s, v) in getattr(data.obj, 'vstore', {}).items() if hasattr(v, 'hi')), default=0)
-                res.append((which, st, [(loc, k, fn, hi.bit_length()) for loc, (k, lo, hi, fn) in f], c.m.nops, mx.bit_length()))
+                res.append((which, st, [(loc, k, fn, hi.bit_length()) for loc, (k, lo, hi, fn) in f], c.m.nops, mx.bit_length(),
+                            len(getattr(c.m, 'precision_loss', []))))
             out['r'] = (res, None)
         except (Unsupported, NeedEnum) as e:
             out['r'] = (None, str(e))
@@ -163,12 +164,18 @@ def ntt_intervals(R, tier):
         if err:
             R.broke('NTT intervals n=%d: %s' % (n, err))
             continue
-        for which, st, finds, ops, bits in res:
+        for which, st, finds, ops, bits, ploss in res:
             nops += ops
             subj = 'q120_%s_bb_avx2 n=%d' % (which, n)
             env['%s n=%d' % (which, n)] = bits
             if st != 'ok':
                 R.ob('ntt-level-envelope-never-wraps', subj, 'refuted', detail='call %s' % (st,), key='q120_%s:n=%d:status' % (which, n))
+            elif finds and ploss:
+                # the envelope was computed after dropping a relation between values (parts of a wide range treated as
+                # independent): an overflow of that envelope is not a proof
+                loc, kind, fn, hb = finds[0]
+                R.ob('ntt-level-envelope-never-wraps', subj, 'unknown',
+                     detail='%s in %s at %s is not excluded, but the envelope is imprecise here' % (kind, fn, loc))
             elif finds:
                 loc, kind, fn, hb = finds[0]
                 R.ob('ntt-level-envelope-never-wraps', subj, 'refuted',
